@@ -402,6 +402,48 @@ def reach(tot, tier):
     return out
 
 
+MON_ID = "C17"
+
+
+# ---- the repository's own test-suite as a workload under the boundary monitors (thorough tier) --------------------------
+def gen_suite(rng, i, tier):
+    return dict(which=MON_ID)
+
+
+def run_suite(ctx, p):
+    import glob
+    import json
+    import os
+    import shutil
+    import subprocess
+    import sys
+    import tempfile
+    from ..core import VERIF
+    if p.get("test"):
+        tests = [p["test"]]
+    else:
+        tests = ["exactpack/tests"]
+    repo = os.environ.get("EXACTPACK_REPO", "/repo")
+    out = tempfile.mkdtemp(prefix="rtm_suite_")
+    env = dict(os.environ, EXACTPACK_VERIF="1", RTM_SUITE_OUT=out, RTM_SUITE_MONITORS=MON_ID, MPLBACKEND="Agg")
+    try:
+        cmd = [sys.executable, "-m", "pytest", "-q", "-p", "no:cacheprovider", "-p", "rtm.pytest_plugin", "--timeout=900", "-n", "8"] + tests
+        pr = subprocess.run(cmd, cwd=repo, env=env, capture_output=True, text=True, timeout=5400)
+        tail = pr.stdout.strip().split("\n")[-1] if pr.stdout.strip() else ""
+        ctx.count("suite_pytest_exit_%s" % pr.returncode)
+        n = 0
+        for f in glob.glob(os.path.join(out, "suite_*.json")):
+            with open(f) as fh:
+                d = json.load(fh)
+            n += d.get("boundary_events", 0)
+            ctx.absorb(d, unit="suite")
+        ctx.count("suite_boundary_events", n)
+        if n == 0:
+            raise Skip("suite_replay_observed_nothing: " + tail[:80])
+    finally:
+        shutil.rmtree(out, ignore_errors=True)
+
+
 UNITS = [
     Unit("catalogue", gen_cat, run_cat, quick=140, thorough=1400, min_nontrivial=60),
     Unit("riemann.igeos", gen_rm("IGEOS"), run_rm, quick=240, thorough=4800, min_nontrivial=300),
@@ -411,4 +453,5 @@ UNITS = [
     Unit("piston.subyield", gen_sub, run_sub, quick=12, thorough=120, min_nontrivial=6),
     Unit("sequence", gen_seq, run_seq, quick=100, thorough=2000, min_nontrivial=60),
     Unit("suolson", gen_so, run_so, quick=24, thorough=480, min_nontrivial=40),
+    Unit("suite", gen_suite, run_suite, quick=0, thorough=1, min_nontrivial=100),
 ]
